@@ -381,20 +381,16 @@ def in_range_atom(s):
 
 
 def in_range_query(s, mdl):
+    """query atoms on which the two paths must agree: everything the setters accept except ring sizes above 65 and the
+    documented identification of Lv/Ts/Og (query isotopes, hydrogens 5..14 and AnyMetal are inside since the fix: commits)"""
     kind = s.get('kind', 'elem')
     if kind == 'metal':
         return True
-    if any(h > 4 for h in (s.get('h') or ())):
-        return False
     rings = s.get('rings') or ()
     if rings != (0,) and any(r > 65 for r in rings):
         return False
-    if kind == 'elem':
-        n = s.get('num', 6)
-        if n > 116:
-            return False
-        if s.get('iso') and not -8 <= s['iso'] - mdl[n] <= 8:
-            return False
+    if kind == 'elem' and s.get('num', 6) > 116:
+        return False
     if kind == 'list' and any(n > 116 for n in s['nums']):
         return False
     return True
@@ -575,10 +571,14 @@ def corr_atoms(ck, rng, mod, lay):
         try:
             bufs = q._cython_compiled_query
         except (struct.error, ValueError, OverflowError) as e:
-            # isotope offsets outside the 64-bit word: the encoder itself raises (finding query-isotope-offset, crash form)
+            # the reference path never raises on a query the setters accepted (fixed finding query-isotope-offset-raises)
             n_raise += 1
             ck.count(f'enc_query raises {type(e).__name__}')
             qatoms.append((s, q, None))
+            ck.counterexample('query-isotope-offset-raises', '_cython_compiled_query raises on a query atom the setters accept',
+                              {'query_atom': s}, f'{type(e).__name__}: {e}', 'no exception (reference path: no match)',
+                              'q.get_mapping(m) vs q.get_mapping(m, _cython=False)',
+                              replay_py=REPLAY_PRE + f'q = synth_query([{s!r}]); m = smiles("C"); print(list(q.get_mapping(m)))')
             continue
         comp, clo = q._compiled_query
         dec = decode_query(bufs[0], lay)
@@ -635,8 +635,7 @@ def corr_atoms(ck, rng, mod, lay):
                 nontrivial = oref or omask
                 ck.case(('pair', qi, i + j), nontrivial=nontrivial)
                 ck.count('atom pair: ' + ('match' if oref else 'no match'))
-                if oref != omask and in_range_atom(aspecs[i + j]) and in_range_query(qs, mdl) and \
-                        not (qs.get('kind') == 'metal' and aspecs[i + j].get('num', 6) == 86):
+                if oref != omask and in_range_atom(aspecs[i + j]) and in_range_query(qs, mdl):
                     n_mismatch_inrange += 1
                     ck.counterexample(f'atom-mismatch:{sorted(qs.items())!r}:{sorted(aspecs[i + j].items())!r}',
                                       'mask test and __eq__ disagree on a query atom / molecule atom pair inside the representable range',
@@ -682,8 +681,7 @@ def corr_atoms(ck, rng, mod, lay):
                 by_query_next.setdefault(qi, []).append((i + j, oref, omask))
                 ck.case(('pair-next', qi, i + j), nontrivial=oref or omask)
                 ck.count('atom pair (neighbour loop): ' + ('match' if oref else 'no match'))
-                if oref != omask and in_range_atom(aspecs[i + j]) and in_range_query(qs, mdl) and \
-                        not (qs.get('kind') == 'metal' and aspecs[i + j].get('num', 6) == 86):
+                if oref != omask and in_range_atom(aspecs[i + j]) and in_range_query(qs, mdl):
                     ck.counterexample(f'atom-mismatch-next:{sorted(qs.items())!r}:{sorted(aspecs[i + j].items())!r}',
                                       'neighbour-loop mask test and __eq__ disagree on a query atom / molecule atom pair inside the representable range',
                                       {'query_atom': qs, 'atom': aspecs[i + j]}, {'mask': omask}, {'__eq__': oref},
@@ -786,7 +784,7 @@ def directed_atoms(ck, items, qspecs, aspecs, mdl):
                 q = synth_query([q_])
             except Exception:
                 continue
-            good = [a for a in acands if in_range_atom(a) and not (q_.get('kind') == 'metal' and {**DEFAULT_ATOM, **a}['num'] == 86)]
+            good = [a for a in acands if in_range_atom(a)]
             if not good:
                 continue
             m = synth_mol(good)
@@ -883,24 +881,24 @@ def corr_pairs(ck, rng, mod, lay):
             for ci, comp, bits, fast, err, slow in runs:
                 qnums = [e[0] for e in comp]
                 if err is not None:
-                    mismatches.append((qtext, text, q, m, f'accelerated path raised {err}'))
+                    if not h_none:
+                        mismatches.append((qtext, text, q, m, f'accelerated path raised {err}'))
                     continue
                 if len(slow) > MAX_MAPPINGS:
                     ck.count('pair skipped: too many mappings')
                     continue
                 # the property-level oracle runs on every call; the model is evaluated on a sample of them
-                explained = h_none and asks_h0(q)
-                if as_set(fast) != as_set(slow):
-                    if explained:
-                        ck.count('divergence explained by the known finding hydrogens-none')
-                    else:
-                        mismatches.append((qtext, text, q, m, 'different sets of mappings from one component / scope call'))
-                n_oracle += 1
+                if h_none:
+                    # get_mapping never hands such a molecule to the mask path (guard); only the model is compared here
+                    ck.count('component call on a molecule with unknown hydrogens: oracle not applicable (guard)')
+                elif as_set(fast) != as_set(slow):
+                    mismatches.append((qtext, text, q, m, 'different sets of mappings from one component / scope call'))
+                n_oracle += not h_none
                 if rng.random() >= (p_hit if (slow or fast) else p_empty) and kind == 'seed':
                     continue
                 n_pairs += 1
                 if n_pairs % 3 == 0:
-                    hyp_cases.append(f'hyps_ok {rq_term(comp, clo)} {rm}')
+                    hyp_cases.append(f'gm_hyps_ok {rq_term(comp, clo)} {rm}')
                 cases.append(f'pair_ok {rq_term(comp, clo)} {rm} {lst(bits, lambda x: b(bool(x)))} {maps_term(fast, qnums)} {maps_term(slow, qnums)}')
                 meta.append(('pair', qtext, text, ci, sum(bits)))
                 ck.case(('pair', qtext, text, ci, tuple(bits)), nontrivial=bool(slow) or bool(fast))
@@ -914,7 +912,7 @@ def corr_pairs(ck, rng, mod, lay):
               '_get_mapping == ref_search as SEQUENCES of mappings (every component / scope call)', ok and not failing, 'correspondence',
               log or str([meta[i] for i in failing[:5]]))
     ck.extra['correspondence_cases_search'] = len(cases)
-    # how many of the compared calls lie inside the hypotheses of C09_mask_search_equiv_b (information, not an obligation)
+    # how many of the compared calls lie inside the hypotheses of C09_get_mapping_equiv_b (information, not an obligation)
     okh, outside, _ = coqcases.run_cases('c09_hyp', 'PyBase', hyp_cases, extra=EXTRA, shard=200)
     if okh:
         ck.extra['search_pairs_inside_theorem_hypotheses'] = f'{len(hyp_cases) - len(outside)} of {len(hyp_cases)} sampled calls'
@@ -993,9 +991,17 @@ KNOWN_PROBES = [
 ]
 
 
-def search(ck, rng):
+def search(ck, rng, mod):
     from chython import smiles, smarts
-    # (1) known findings: fixed probes
+    # the guard of get_mapping: the transpiled matcher is entered iff no atom of the molecule has implicit_hydrogens None
+    calls = [0]
+    real_gm = mod.get_mapping
+
+    def counting(*a):
+        calls[0] += 1
+        return real_gm(*a)
+    guard_cases, guard_meta = [], []
+    # (1) findings, known and fixed: fixed probes (an entry with status fixed suppresses nothing: its return is a VIOLATION)
     for key, qt, mt, what in KNOWN_PROBES:
         q, m = smarts(qt), smiles(mt)
         fast, slow = both_paths(q, m, automorphism_filter=False)
@@ -1027,6 +1033,19 @@ def search(ck, rng):
             except Exception:
                 pass
         h_none = any(a.implicit_hydrogens is None for a in m._atoms.values())
+        ck.count('api search: molecule ' + ('with' if h_none else 'without') + ' unknown hydrogens')
+        if len(guard_cases) < (60 if ck.tier == 'quick' else 400):
+            calls[0] = 0
+            mod.get_mapping = counting
+            try:
+                list(itertools.islice(smarts('[A]').get_mapping(m), 3))
+            finally:
+                mod.get_mapping = real_gm
+            guard_cases.append(f'Bool.eqb (uses_mask_path true {rmol_term(m)}) {b(calls[0] > 0)}')
+            guard_meta.append(s)
+            if (calls[0] > 0) == h_none:
+                ck.counterexample('hydrogens-none', 'a molecule with an unknown hydrogen count reaches the bit-mask matcher (or a complete one does not)',
+                                  {'molecule': s}, {'mask path entered': calls[0] > 0}, {'expected': not h_none}, 'call counter on the transpiled get_mapping')
         qs = rng.sample(lib, 8 if ck.tier == 'quick' else 25) + [('fragment', fragment_query(m, rng)) for _ in range(3)]
         for qt, q in qs:
             kw = rng.choice([{}, {}, {'automorphism_filter': False}, {'searching_scope': rng.sample(list(m._atoms), max(1, len(m) * 2 // 3))}])
@@ -1038,10 +1057,12 @@ def search(ck, rng):
             ck.case(('api', qt if qt != 'fragment' else str(q._atoms), s, tuple(sorted(kw))), nontrivial=bool(slow))
             ck.count('api search: ' + ('some mappings' if slow else 'no mapping') + (', ' + ','.join(kw) if kw else ''))
             if isinstance(fast, str) or as_set(fast) != as_set(slow):
-                if h_none and asks_h0(q) and not isinstance(fast, str):
-                    ck.count('api search: divergence explained by the known finding hydrogens-none')
-                    continue
                 report_pair(ck, qt if qt != 'fragment' else 'fragment ' + repr(q._atoms), s, q, m, 'different sets of mappings (public API)', kw)
+    okg, fg, logg = coqcases.run_cases('c09_guard', 'PyBase', guard_cases, extra=EXTRA, shard=30)
+    ck.oblige('correspondence: the guard of QueryIsomorphism.get_mapping (mask path entered iff no hydrogen count is None) == uses_mask_path',
+              okg and not fg, 'correspondence', logg or str([guard_meta[i] for i in fg[:5]]))
+    if not okg or fg:
+        ck.unchecked('correspondence uses_mask_path vs the guard of get_mapping', logg[-1000:], [guard_meta[i] for i in fg[:10]])
     ck.extra['api_pairs'] = n_eval
     ck.extra['api_pairs_with_mappings'] = n_hit
 
@@ -1095,7 +1116,7 @@ def run(ck):
     tied2 = corr_pairs(ck, rng, mod, lay)
     ck.extra['phase_s']['correspondence_search'] = round(time.time() - t0, 1)
     t0 = time.time()
-    search(ck, rng)
+    search(ck, rng, mod)
     ck.extra['phase_s']['api_search'] = round(time.time() - t0, 1)
     ck.extra['proved'] = proved
     ck.extra['tied'] = bool(tied1 and tied2)
